@@ -500,4 +500,130 @@ def C05_uni(c):
     run_uni(c, ["uni_move_atomic", "uni_move_fullsync", "uni_zc_atomic", "uni_zc_fullsync"], build, checks, relax_kf=True)
 
 
-CHECKS = {"C04": C04, "C07": C07, "C08": C08, "C16": C16, "C20": C20, "C02": C02, "C13": C13, "C18": C18, "C15": C15, "C01": C01}
+def run_multi(c, kinds, build, checks, procs=5, expect_stalls=False, tag=""):
+    for kind in kinds:
+        for n, group in by_n(build(kind)):
+            conform_chan(c, "%s_n%d%s" % (kind, n, tag), group, "Trace_AbsMulti", multi_consts(n, procs, checks), expect_stalls=expect_stalls)
+
+
+MULTI_DELIVERY = ["InvNoInvention", "InvAtMostOncePerListener", "InvOnlyLifetimeEvents", "InvProducerOrder", "InvSamePayload", "InvLeftoversLegal", "InvAllDelivered", "InvNoGaps", "NoPanic"]
+
+
+def multi_producers(kind, variant=0):
+    ogre = kind in MULTI_OGRE
+    p0 = [S(11), SW(12)]
+    p1 = [SA(21, 1)] + ([RSV, FILL(22), SENDR] if ogre else [S(22)])
+    if variant == 1:
+        p0 = [SW(11, False), SA(12, 2)]
+        p1 = [S(21), SW(22)]
+    if kind == "multi_mmap":
+        # its send_with_async / reserve_slot are todo!() upstream (excluded by the statements)
+        p0 = [S(11), SW(12)] if variant == 0 else [SW(11, False), S(12)]
+        p1 = [SW(21), S(22)] if variant == 0 else [S(21), SW(22)]
+    return [p0, p1]
+
+
+def C03(c):
+    quick = c.tier == "quick"
+    mr, rr = (150, 100) if quick else (3000, 2000)
+
+    def build(kind):
+        out = []
+        n = 4
+        for s_, nl in ((2, 1), (2, 2), (4, 3)) if not quick else ((2, 2), (4, 3)):
+            for variant in (0, 1):
+                th = multi_producers(kind, variant) + [[DRIVE(i, max_=4)] for i in range(nl)]
+                out += explore2("%s_s%dl%d_v%d" % (kind, s_, nl, variant), kind, n, s_, th, c, mr, rr, seed_extra=variant, pre_streams=nl)
+        return out
+    run_multi(c, MULTI_NONLOG, build, MULTI_DELIVERY, procs=5)
+    run_multi(c, ["multi_mmap"], build, MULTI_DELIVERY + ["InvSameTotalOrder"], procs=5)
+
+
+def lifetime_histories(seed, count, length, s_max, max_sends=3):
+    """sequential histories of create / send / poll / drop (with or without leftovers) / cancel_all"""
+    import random
+    rng = random.Random(seed)
+    out = []
+    for k in range(count):
+        ops = []
+        live = []
+        nxt = 0
+        v = 100 + 50 * k
+        sends = 0
+        for _ in range(length):
+            choice = rng.choice(["create", "send", "send", "poll", "poll", "drop", "running"])
+            if choice == "send" and sends >= max_sends:
+                choice = "poll"
+            if choice == "create" and len(live) < s_max:
+                ops.append(CREATE())
+                live.append(nxt)
+                nxt += 1
+            elif choice == "send":
+                v += 1
+                sends += 1
+                ops.append(S(v))
+            elif choice == "poll" and live:
+                ops.append(POLL(rng.choice(live)))
+            elif choice == "drop" and live:
+                s = rng.choice(live)
+                live.remove(s)
+                ops.append(DROPS(s))
+            elif choice == "running":
+                ops.append(op("running"))
+        ops.append(op("running"))
+        out.append(("h%d" % k, ops, nxt))
+    return out
+
+
+def C10(c):
+    quick = c.tier == "quick"
+    cnt, ln = (10, 12) if quick else (80, 16)
+
+    def build(kind):
+        out = []
+        for n, s_ in ((4, 1), (4, 2), (4, 4)):
+            for hname, ops, nl in lifetime_histories(c.seed * 13 + s_, cnt, ln, s_):
+                out.append(cscn("%s_s%d_%s" % (kind, s_, hname), kind, n, s_, [ops], dfs(0, 1), pre_streams=0))
+        return out
+    run_multi(c, MULTI_NONLOG, build, MULTI_DELIVERY + ["InvRunningCount"], procs=1)
+
+    # the same create / drop bookkeeping on the Uni channels: ids never run out, the running count is exact
+    def build_uni(kind):
+        out = []
+        for s_ in (1, 2):
+            ops = []
+            k = 0
+            for cyc in range(6):
+                ops += [CREATE(), op("running")]
+                if s_ == 2:
+                    ops += [CREATE(), op("running"), DROPS(k + 1)]
+                ops += [S(10 + cyc), POLL(k), DROPS(k), op("running")]
+                k += s_
+            out.append(cscn("%s_s%d_ids" % (kind, s_), kind, 4, s_, [ops], dfs(0, 1), pre_streams=0))
+        return out
+    run_uni(c, UNI_KINDS, build_uni, ["InvRunningCount", "InvDeliveredAtMostOnce", "NoPanic"], procs=1)
+
+
+def C17(c):
+    quick = c.tier == "quick"
+    mr, rr = (200, 150) if quick else (4000, 3000)
+    checks = MULTI_DELIVERY + ["InvCapacityRestored", "InvDestroyedAtMostOnce"]
+
+    def build(kind):
+        out = []
+        n, s_ = 4, 4
+        for pre in (2, 3):
+            probe = n if kind in MULTI_OGRE else None
+            # a churner adds a listener / removes one while the producer fans out
+            th_add = [[S(11), S(12)], [CREATE(), DRIVE(pre, max_=2)]] + [[DRIVE(i, max_=2)] for i in range(pre - 1)] + [[POLL(pre - 1), POLL(pre - 1), POLL(pre - 1)]]
+            th_rem = [[S(11), S(12)], [POLL(0), DROPS(0)]] + [[DRIVE(i, max_=2)] for i in range(1, pre)]
+            for nm, th in (("add", th_add), ("rem", th_rem)):
+                for sc in explore2("%s_l%d_%s" % (kind, pre, nm), kind, n, s_, th, c, mr, rr, seed_extra=pre, pre_streams=pre):
+                    if probe is not None:
+                        sc["probe"] = probe
+                    out.append(sc)
+        return out
+    run_multi(c, MULTI_KINDS, build, checks, procs=5)
+
+
+CHECKS = {"C03": C03, "C10": C10, "C17": C17, "C04": C04, "C07": C07, "C08": C08, "C16": C16, "C20": C20, "C02": C02, "C13": C13, "C18": C18, "C15": C15, "C01": C01}
